@@ -65,17 +65,21 @@ Section Mono.
     - rb; [|apply x_addnum_le; op]. apply refines_fold. intros s q. apply x_dat_le; op.
   Qed.
 
-  Lemma x_add_product_le : forall st cn1 cn2 cd1 cd2 term, refines cn1 cn2 -> refines cd1 cd2 ->
-    refines (x_add_product O1 st cn1 cd1 term) (x_add_product O2 st cn2 cd2 term).
+  Lemma x_add_product_le : forall fl st cn1 cn2 cd1 cd2 term, refines cn1 cn2 -> refines cd1 cd2 ->
+    refines (x_add_product O1 fl st cn1 cd1 term) (x_add_product O2 fl st cn2 cd2 term).
   Proof.
-    intros st cn1 cn2 cd1 cd2 term Hn Hd. unfold x_add_product. destruct term; try (apply refines_bind; [exact Hd | intros ?; apply x_cdat_le]).
+    intros fl st cn1 cn2 cd1 cd2 term Hn Hd. unfold x_add_product.
+    assert (PL : refines (if fl then do c <- cd1; x_cdat O1 st c term else x_dat O1 st cd1 term)
+                         (if fl then do c <- cd2; x_cdat O2 st c term else x_dat O2 st cd2 term)).
+    { destruct fl; [apply refines_bind; [exact Hd | intros ?; apply x_cdat_le] | apply x_dat_le; exact Hd]. }
+    destruct term; try exact PL.
     - apply x_addnum_le. rb; [exact Hn | op].
-    - destruct (negb (num_is_one coef)); [|apply refines_bind; [exact Hd | intros ?; apply x_cdat_le]].
+    - destruct (negb (num_is_one coef)); [|exact PL].
       rb; [op|]. apply x_dat_le. rb; [exact Hn | op].
   Qed.
 
-  Lemma x_mul_add_add_le : forall st m ca da cb db,
-    refines (x_mul_add_add O1 st m ca da cb db) (x_mul_add_add O2 st m ca da cb db).
+  Lemma x_mul_add_add_le : forall fl st m ca da cb db,
+    refines (x_mul_add_add O1 fl st m ca da cb db) (x_mul_add_add O2 fl st m ca da cb db).
   Proof.
     intros. unfold x_mul_add_add.
     rb; [apply x_addnum_le; rb; op|].
@@ -85,16 +89,16 @@ Section Mono.
     - rb; [op|]. apply refines_fold. intros s q. apply x_dat_le; op.
   Qed.
 
-  Lemma x_mul_other_add_le : forall st m a cb db,
-    refines (x_mul_other_add O1 st m a cb db) (x_mul_other_add O2 st m a cb db).
+  Lemma x_mul_other_add_le : forall fl st m a cb db,
+    refines (x_mul_other_add O1 fl st m a cb db) (x_mul_other_add O2 fl st m a cb db).
   Proof.
     intros. unfold x_mul_other_add. rb; [op|]. rb.
     - apply refines_fold. intros s q. rb; [op|]. apply x_add_product_le; op.
     - destruct (expr_eqb (snd (as_coef_term a)) e_one); [apply x_addnum_le | apply x_dat_le]; op.
   Qed.
 
-  Lemma x_mul_expand_two_le : forall st m a b,
-    refines (x_mul_expand_two O1 st m a b) (x_mul_expand_two O2 st m a b).
+  Lemma x_mul_expand_two_le : forall fl st m a b,
+    refines (x_mul_expand_two O1 fl st m a b) (x_mul_expand_two O2 fl st m a b).
   Proof.
     intros. unfold x_mul_expand_two.
     destruct a; destruct b;
